@@ -906,8 +906,91 @@ pub fn judge_traversal(v: &CValue, pr: &Probe) -> Judge {
     Ok(())
 }
 
+/// Iterator protocol: the value's iterator driven through a generated program of std adaptor calls
+/// (next, nth, skip, step_by, take) must behave like a slice iterator over the expected elements.
+#[derive(Clone, Debug, PartialEq, Eq, Hash)]
+pub enum IterOp {
+    Next,
+    Nth(u8),
+    SkipNext(u8),
+    Take(u8),
+    StepBy(u8),
+}
+
+pub fn iter_ops() -> BoxedStrategy<Vec<IterOp>> {
+    let op = prop_oneof![4 => Just(IterOp::Next), 3 => (0u8..4).prop_map(IterOp::Nth), 2 => (0u8..4).prop_map(IterOp::SkipNext), 2 => (0u8..4).prop_map(IterOp::Take), 1 => (1u8..4).prop_map(IterOp::StepBy)];
+    proptest::collection::vec(op, 1..7).boxed()
+}
+
+fn iter_ops_json(ops: &[IterOp]) -> Value {
+    json!(ops.iter().map(|o| match o {
+        IterOp::Next => json!("next"),
+        IterOp::Nth(k) => json!({"nth": k}),
+        IterOp::SkipNext(k) => json!({"skip_next": k}),
+        IterOp::Take(k) => json!({"take": k}),
+        IterOp::StepBy(k) => json!({"step_by": k}),
+    }).collect::<Vec<_>>())
+}
+
+fn iter_ops_from_json(v: &Value) -> Option<Vec<IterOp>> {
+    v.as_array()?.iter().map(|o| {
+        if o.as_str() == Some("next") {
+            return Some(IterOp::Next);
+        }
+        let (k, x) = o.as_object()?.iter().next()?;
+        let n = x.as_u64()? as u8;
+        Some(match k.as_str() {
+            "nth" => IterOp::Nth(n),
+            "skip_next" => IterOp::SkipNext(n),
+            "take" => IterOp::Take(n),
+            "step_by" => IterOp::StepBy(n.max(1)),
+            _ => return None,
+        })
+    }).collect()
+}
+
+pub fn judge_iter_program(c: &(CValue, Vec<IterOp>), pr: &Probe) -> Judge {
+    let (v, ops) = c;
+    judge_traversal(v, pr)?;
+    let lib = to_ipp(v);
+    let expected: Vec<CValue> = match v {
+        CValue::Set(l) => l.clone(),
+        CValue::Coll(m) => m.values().cloned().collect(),
+        o => vec![o.clone()],
+    };
+    let exp: Vec<CValue> = expected.iter().map(|e| canon_value(&to_ipp(e), false)).collect();
+    if exp.len() >= 2 && ops.iter().skip(1).any(|o| !matches!(o, IterOp::Next)) {
+        pr.nontrivial(hash64(c));
+        pr.label("iterator program: an adaptor call after the iterator was advanced, >=2 elements");
+    }
+    let bound = exp.len() + 4;
+    let r = catch(|| {
+        let mut a = (&lib).into_iter();
+        let mut b = exp.clone().into_iter();
+        for (i, op) in ops.iter().enumerate() {
+            // (bounded on the library side: a non-terminating iterator must not hang the check)
+            let (x, y): (Vec<CValue>, Vec<CValue>) = match op {
+                IterOp::Next => (a.next().map(|e| canon_value(e, false)).into_iter().collect(), b.next().into_iter().collect()),
+                IterOp::Nth(k) => (a.nth(*k as usize).map(|e| canon_value(e, false)).into_iter().collect(), b.nth(*k as usize).into_iter().collect()),
+                IterOp::SkipNext(k) => (a.by_ref().skip(*k as usize).next().map(|e| canon_value(e, false)).into_iter().collect(), b.by_ref().skip(*k as usize).next().into_iter().collect()),
+                IterOp::Take(k) => (a.by_ref().take(*k as usize).map(|e| canon_value(e, false)).collect(), b.by_ref().take(*k as usize).collect()),
+                IterOp::StepBy(k) => (a.by_ref().step_by(*k as usize).take(bound).map(|e| canon_value(e, false)).collect(), b.by_ref().step_by(*k as usize).take(bound).collect()),
+            };
+            if x != y {
+                return Err((i, x, y));
+            }
+        }
+        Ok(())
+    });
+    match r {
+        Err(p) => Err(Fail::new(format!("C19/traversal-{}", panic_sig(&p)), format!("iterator program panicked: {p}"))),
+        Ok(Err((i, x, y))) => Err(Fail::new("C19/traversal-iterator-protocol", format!("traversing {} with {} elements through the program {}: step {i} yields {:?}, a slice iterator over the expected elements yields {:?}", kind_name(v), exp.len(), iter_ops_json(ops), x.iter().take(6).collect::<Vec<_>>(), y.iter().take(6).collect::<Vec<_>>()))),
+        Ok(Ok(())) => Ok(()),
+    }
+}
+
 pub fn run_c19(ctx: &Ctx) {
-    ctx.set_rule("(a) proptest-generated histories: start state (empty container, a constructor's message, or a parser-produced message that may contain repeated groups) followed by 0-39 add(kind, name, value) operations with names from a small pool (so replacement happens); after EVERY step (one evaluation each) groups(), groups_of(k) for all four kinds and finally into_groups() are compared with an ordered-list-of-groups model. (b) generated values (incl. sets with 0 or 1 element whose element is itself a set or collection): traversal yields set elements in order / collection member values in byte-lexicographic member-name order / the value itself once, then None on three further calls. Non-trivial = history with a replacement and an add to a kind that occurs twice, or a traversed set/collection with >=2 elements; distinct by hash.");
+    ctx.set_rule("(a) proptest-generated histories: start state (empty container, a constructor's message, or a parser-produced message that may contain repeated groups) followed by 0-39 add(kind, name, value) operations with names from a small pool (so replacement happens); after EVERY step (one evaluation each) groups(), groups_of(k) for all four kinds and finally into_groups() are compared with an ordered-list-of-groups model. (b) generated values (incl. sets with 0 or 1 element whose element is itself a set or collection): traversal yields set elements in order / collection member values in byte-lexicographic member-name order / the value itself once, then None on three further calls; and the same iterator driven through a generated program of 1-6 std iterator calls (next, nth(k), by_ref().skip(k).next(), take(k), step_by(k)) must yield what a slice iterator over the expected elements yields at every step. Non-trivial = history with a replacement and an add to a kind that occurs twice, or a traversed set/collection with >=2 elements; distinct by hash.");
     let (shards, per) = ctx.tier.pick((16, 2000), (16, 40000));
     run_prop(ctx, "add-history", shards, per, history, judge_c19, history_json);
     let (shards, per) = ctx.tier.pick((16, 10000), (16, 150000));
@@ -918,12 +1001,16 @@ pub fn run_c19(ctx: &Ctx) {
             1 => gen::m_value(1, false).prop_map(|v| CValue::Set(vec![CValue::Set(vec![v.clone(), v])])),
         ]
     };
-    run_prop(ctx, "traversal", shards, per, || prop_oneof![6 => gen::m_value(3, false), 1 => small_sets().boxed()], judge_traversal, cvalue_json);
+    run_prop(ctx, "traversal", shards, per, || (prop_oneof![6 => gen::m_value(3, false), 1 => small_sets().boxed()], iter_ops()), judge_iter_program, |c| json!({"value": cvalue_json(&c.0), "iter_ops": iter_ops_json(&c.1)}));
 }
 
 pub fn replay_c19(ctx: &Ctx, sub: &str, case: &Value) -> Judge {
     let pr = Probe { ctx, counting: false };
     if sub == "traversal" {
+        if let Some(ops) = case.get("iter_ops") {
+            let v = cvalue_from_json(case.get("value").unwrap_or(&Value::Null)).ok_or_else(|| Fail::new("bad-replay", "value"))?;
+            return judge_iter_program(&(v, iter_ops_from_json(ops).ok_or_else(|| Fail::new("bad-replay", "ops"))?), &pr);
+        }
         let v = cvalue_from_json(case).ok_or_else(|| Fail::new("bad-replay", "value"))?;
         return judge_traversal(&v, &pr);
     }
